@@ -70,6 +70,11 @@ fn real_main() {
             std::process::exit(2);
         }
     }
+    // properties stated about the validation as a whole also need every function on the validation path to
+    // correspond to its model
+    if ["C01", "C02", "C03", "C04", "C05", "C08", "C11", "C12", "C13", "C14", "C15", "C17", "C18", "C19"].contains(&prop.as_str()) {
+        ctx.dependency_suite();
+    }
     ctx.rep.add("model_answers", ctx.drv.asked);
     ctx.rep.add("wall_ms", t0.elapsed().as_millis() as u64);
     ctx.rep.print();
